@@ -2,6 +2,9 @@
 # Full .vo build of the Coq development (never -vos). Usage: build.sh [make args]
 set -e
 cd "$(dirname "$0")/../coq"
+mkdir -p cases
+exec 9>.build.lock
+flock 9
 {
   echo "-R . Fsic"
   echo "-arg -w -arg -notation-overridden,-deprecated-hint-without-locality,-inexact-float,-ambiguous-paths,-deprecated-instance-without-locality"
